@@ -378,8 +378,11 @@ async fn run_async(scn: &Scn, blobs: &mut HashMap<Vec<u8>, u32>) -> Raw {
                     wait_until(ARRIVE, || unit.task.is_finished()).await;
                     // keep the port: a bound, non-listening socket refuses connections like a free port does and
                     // stops any other unit (another case, another process) from taking the port over while this
-                    // case still connects to it; if somebody was faster the case is discarded
-                    match TcpSocket::new_v4() { Ok(g) => match g.bind(SocketAddr::from(([127, 0, 0, 1], port))) { Ok(()) => guard = Some(g), Err(_) => port_lost = true }, Err(_) => port_lost = true }
+                    // case still connects to it; if somebody was faster the case is discarded. SO_REUSEADDR: the
+                    // accepted connections of the ended unit (which inherited it from tokio's listener) still
+                    // exist on this local port, and without it the bind fails with EADDRINUSE — every
+                    // termination with a live session was then discarded as `environment` (found by builder bgpmetrics)
+                    match TcpSocket::new_v4() { Ok(g) => match { let _ = g.set_reuseaddr(true); g.bind(SocketAddr::from(([127, 0, 0, 1], port))) } { Ok(()) => guard = Some(g), Err(_) => port_lost = true }, Err(_) => port_lost = true }
                     let c3 = collected.clone();
                     wait_until(SETTLE, || c3.lock().unwrap().len() > n0).await;
                     tokio::time::sleep(Duration::from_millis(30)).await;
